@@ -63,6 +63,12 @@ CHECKS = {
  "C17": dict(
     text="Fully enumerated: {CP pair, stableswap pair, 3pool} x {with, without liquidity} x 2^3 toggle combinations x every entry path (direct ProvideLiquidity, via frontend_helper; LP Send{WithdrawLiquidity}, direct WithdrawLiquidity{}; native Swap, cw20 Send{Swap}, router 1-hop native / 1-hop cw20 Send / 2-hop first hop / 2-hop second hop) and {native, cw20 vault} x liquidity x 2^3 x {Deposit, Send{Withdraw}, Withdraw{}, FlashLoan direct, via vault_router}: disabled => rejected with full-state equality; enabled => same result and same balance deltas as the all-enabled control; disable->enable restores storage and behaviour; fresh pools/vaults start enabled.",
     note="Default features; toggles set through the factories.", tech="exhaustive matrix enumeration with a differential oracle on the implementation", ref="DESIGN.md §4 C17"),
+ "C18": dict(
+    text="Explicit-state BFS (depth 3 quick / 4 thorough) over sequences of configuration writes on a deployment holding every contract, in three groups (pools; vaults; distributor+lair+collector), through every write path (factory create, factory-mediated update, owner update, direct instantiate by an arbitrary account) with values on / just inside / just outside every bound (10 fee triples incl. sums 1-1e-18, 1, 1+1e-18; amp {0,1,1e6,1e6+1}; grace {0,1,2,5,30,31}; duration {1d-1ns,1d,2d}; growth {0,.5,1,1+1e-18,2}; 0-3 bonding assets; take rate {0,1e-18,.5,1-1e-18,1,1+1e-18}; vault assets plain / token-factory denoms / cw20): every Config read back in every reached state satisfies all documented bounds, grace never decreases, rejected writes change nothing.",
+    note="Amp ramps are covered by C04. In default features no vault over a token-factory denom is reachable (counter reported).", tech="explicit-state model checking of the implementation (BFS) over configuration-write sequences", ref="DESIGN.md §4 C18"),
+ "C19": dict(
+    text="Explicit-state BFS over create/remove/re-create sequences on the real pool factory (every ordered pair and every permutation of 1-2 triples of a 3-4 asset universe of native and cw20 assets, depth 4/5), vault and incentive factories (depth 6/8) and router routes over a chain of real pairs incl. removing and re-creating a hop's pair (depth 4/5): registry <-> model bijection on unordered asset sets, creation in any order on an existing set rejected, point queries in every order == the child's own report (address, assets, decimals, type, LP token), removed entries absent from point and list queries, re-creation gets a fresh address, pagination for every limit 1..n+1 concatenates to exactly the full listing, routes stored only if every hop is registered, executed routes only touch currently registered pairs.",
+    note="Asset universe avoids concatenated-key collisions (stated exclusion).", tech="explicit-state model checking of the implementation (BFS) against a reference registry", ref="DESIGN.md §4 C19"),
 }
 NOT_BUILT = "check not built yet in this round (planned, see DESIGN.md)"
 props = [json.loads(l) for l in open('/verif/properties.jsonl')]
